@@ -642,6 +642,67 @@ func c14Special(c *core.Ctx, helper string, key gen.KeyPair) {
 				}
 			}
 		}
+		// (1c) a command given by its bare name is looked up on PATH at every call: what a name
+		// stands for may change between two calls of one process (a file of that name appears
+		// earlier on PATH, the file moves to a later directory)
+		if c.Shard == 3%c.NShards {
+			id := fmt.Sprintf("special/path-lookup-per-call/dsse=%v", dsse)
+			if c.Want(id) {
+				base := filepath.Join(c.WorkDir, fmt.Sprintf("special-path-%v", dsse))
+				os.RemoveAll(base)
+				d1, d2, d3 := filepath.Join(base, "d1"), filepath.Join(base, "d2"), filepath.Join(base, "d3")
+				mkdirs(d1, d2, d3)
+				savedPath := os.Getenv("PATH")
+				os.Setenv("PATH", d1+":"+d2+":"+d3+":"+savedPath)
+				tool := "vtool-zq"
+				script := func(dir, word string, rc int) {
+					os.WriteFile(filepath.Join(dir, tool), []byte(fmt.Sprintf("#!/bin/sh\necho %s-out\necho %s-err >&2\nexit %d\n", word, word, rc)), 0755)
+				}
+				call := func() string {
+					var m map[string]interface{}
+					var err error
+					pk := c.Guard(id, "path-lookup", tool, func() {
+						if dsse {
+							m, err = byProducts(intoto.InTotoRun("s", "", nil, nil, []string{tool}, key.Priv, []string{"sha256"}, nil, nil, false, false, true))
+						} else {
+							m, err = intoto.RunCommand([]string{tool}, "")
+						}
+					})
+					c.Eval(1)
+					if pk {
+						return "panic"
+					}
+					if err != nil {
+						return "error"
+					}
+					return strings.TrimSpace(str(m, "stdout")) + "/" + strings.TrimSpace(str(m, "stderr")) + "/" + status(m)
+				}
+				c.Begin(id)
+				var got, want []string
+				script(d2, "second", 4)
+				got, want = append(got, call()), append(want, "second-out/second-err/4")
+				script(d1, "first", 6) // shadows the one in d2
+				got, want = append(got, call()), append(want, "first-out/first-err/6")
+				os.Remove(filepath.Join(d1, tool))
+				got, want = append(got, call()), append(want, "second-out/second-err/4")
+				os.Rename(filepath.Join(d2, tool), filepath.Join(d3, tool)) // moved to a later directory
+				got, want = append(got, call()), append(want, "second-out/second-err/4")
+				os.Remove(filepath.Join(d3, tool))
+				got, want = append(got, call()), append(want, "error")
+				script(d3, "third", 0)
+				got, want = append(got, call()), append(want, "third-out/third-err/0")
+				c.End(id)
+				os.Setenv("PATH", savedPath)
+				if got[0] != want[0] {
+					c.Inconclusive("harness: the first call of the PATH history did not run the script: " + got[0])
+				} else if fmt.Sprint(got) != fmt.Sprint(want) {
+					c.Violation("a command given by its bare name is not the one PATH leads to at the time of the call (what was captured belongs to another program, or a startable command is reported as unstartable)", id, map[string]any{"dsse": dsse, "captured_in_order": got, "expected_in_order": want})
+				} else {
+					ok++
+					c.Class("special", "path-lookup-per-call", dsse)
+				}
+			}
+		}
 		// (2) the command's standard input is empty, whatever the caller's own standard input is
 		if c.Shard == 2%c.NShards {
 			id := fmt.Sprintf("special/standard-input/dsse=%v", dsse)
